@@ -1,4 +1,4 @@
-//go:build verif
+//go:build verif && (c01 || c11 || allprops)
 
 package majority
 
